@@ -509,8 +509,9 @@ class FullCaseCitation(CaseCitation, FullCitation):
             self.metadata.defendant = preceding.metadata.defendant
             self.metadata.plaintiff = preceding.metadata.plaintiff
             # California style may have a year prior to citation; merge as well
-            self.metadata.year = preceding.metadata.year
-            self.year = preceding.year
+            if preceding.metadata.year:
+                self.metadata.year = preceding.metadata.year
+                self.year = preceding.year
 
     @dataclass(eq=True, unsafe_hash=True)
     class Metadata(CaseCitation.Metadata):
